@@ -16,8 +16,7 @@ CONF = {
     'assumptions': [
         'documents are JSON values without duplicate member names; strings are valid UTF-8',
         'integers beyond 64 bits and decimal fractions with more than 15 significant digits cannot be carried exactly by the YAML text layer and take the JSON routes only',
-        'the no-op schema still applies the annotation content check in ValidateData / ValidateFile(non-.json) (C17_nop_accepts_unconditionally_refuted); the property is '
-        'read with its proviso "annotations well-formed" for the none schema too',
+        'the no-op schema skips the annotation content check since fix 748fe15 (D17); the earlier behaviour is kept as C17_nop_accepts_pinned_refuted',
     ],
     'search': [(1001, 'thorough')],
     'shard_timeout': 900,
